@@ -29,6 +29,7 @@ import (
 	abci "github.com/cometbft/cometbft/abci/types"
 	sdk "github.com/cosmos/cosmos-sdk/types"
 	"github.com/cosmos/cosmos-sdk/types/bech32"
+	sdkaddress "github.com/cosmos/cosmos-sdk/types/address"
 	authtypes "github.com/cosmos/cosmos-sdk/x/auth/types"
 	vestexported "github.com/cosmos/cosmos-sdk/x/auth/vesting/exported"
 	vestingtypes "github.com/cosmos/cosmos-sdk/x/auth/vesting/types"
@@ -77,6 +78,7 @@ type acctInfo struct {
 	key  *itutiltypes.TestAccount // the key controlling exactly this address; nil if there is none
 	sfx  *itutiltypes.TestAccount // 32-byte address: the key controlling its last 20 bytes
 	tag  string
+	cls  string // length class of an address that is not 20 bytes long
 }
 
 type storedProof struct{ Account, Hash, Signature string }
@@ -88,6 +90,7 @@ type world struct {
 	ids     map[string]uint64 // address bytes (hex) or "str:<string>" -> model id
 	byHex   map[string]*acctInfo
 	pool    []*acctInfo // candidate accounts to prove / vesting targets
+	oddlen  []*acctInfo // the addresses of the pool that are not 20 bytes long
 	rich    []*itutiltypes.TestAccount
 	sink    *itutiltypes.TestAccount
 	ica     sdk.AccAddress // interchain account sending vesting-creation messages
@@ -179,14 +182,45 @@ func (w *world) setup() {
 	w.pool = append(w.pool, w.register(sdk.AccAddress(common.HexToAddress("0xCc02000000000000000000000000000000000002").Bytes()), nil, "contract"))
 	w.pool = append(w.pool, w.register(authtypes.NewModuleAddress(authtypes.FeeCollectorName), nil, "module"))
 	w.pool = append(w.pool, w.register(authtypes.NewModuleAddress(vauthtypes.ModuleName), nil, "module"))
-	// 32-byte addresses whose last 20 bytes are a key's address
-	for i := 0; i < 2; i++ {
-		k := DetAccount(w.seed, "vauth-suffix", i)
-		long := append([]byte{0xAB, byte(i), 3, 4, 5, 6, 7, 8, 9, 10, 11, 12}, k.GetCosmosAddress().Bytes()...)
-		a := w.register(sdk.AccAddress(long), nil, "long32")
-		a.sfx = k
+	// Addresses that are NOT 20 bytes long, of every length class an SDK address may have.  No key controls any of them;
+	// where it is feasible each comes with the key a sloppy length rule would mistake for its owner: the key whose 20-byte
+	// Ethereum address is the address cut to its last / first 20 bytes (longer ones), or the address padded with a zero
+	// byte in front / behind (19 bytes: keys ground, deterministically from the seed, until their address starts / ends
+	// with a zero byte; about 256 tries each).
+	odd := func(b []byte, k *itutiltypes.TestAccount, cls string) {
+		a := w.register(sdk.AccAddress(b), nil, "oddlen")
+		a.sfx, a.cls = k, cls
 		w.pool = append(w.pool, a)
+		w.oddlen = append(w.oddlen, a)
 	}
+	grind := func(tag string, pred func(common.Address) bool) *itutiltypes.TestAccount {
+		for i := 0; ; i++ {
+			if k := DetAccount(w.seed, tag, i); pred(k.GetEthAddress()) {
+				return k
+			}
+		}
+	}
+	cat := func(parts ...[]byte) []byte {
+		var out []byte
+		for _, p := range parts {
+			out = append(out, p...)
+		}
+		return out
+	}
+	pad12 := []byte{0xAB, 1, 3, 4, 5, 6, 7, 8, 9, 10, 11, 12}
+	kLead := grind("vauth-lead0", func(a common.Address) bool { return a[0] == 0 })
+	kTrail := grind("vauth-trail0", func(a common.Address) bool { return a[19] == 0 })
+	odd(kLead.GetEthAddress().Bytes()[1:], kLead, "len19/zero-padded-in-front-is-a-key")
+	odd(kTrail.GetEthAddress().Bytes()[:19], kTrail, "len19/zero-padded-behind-is-a-key")
+	k21a, k21b := DetAccount(w.seed, "vauth-suffix", 10), DetAccount(w.seed, "vauth-suffix", 11)
+	odd(cat([]byte{0x01}, k21a.GetCosmosAddress()), k21a, "len21/last-20-are-a-key")
+	odd(cat(k21b.GetCosmosAddress(), []byte{0x01}), k21b, "len21/first-20-are-a-key")
+	k32a, k32b, k32c := DetAccount(w.seed, "vauth-suffix", 0), DetAccount(w.seed, "vauth-suffix", 1), DetAccount(w.seed, "vauth-suffix", 2)
+	odd(cat(pad12, k32a.GetCosmosAddress()), k32a, "len32/last-20-are-a-key")
+	odd(cat(pad12[:11], []byte{0}, k32b.GetCosmosAddress()), k32b, "len32/last-20-are-a-key")
+	odd(cat(k32c.GetCosmosAddress(), pad12), k32c, "len32/first-20-are-a-key")
+	odd([]byte{0x07}, nil, "len1")
+	odd(sdkaddress.Module("verif-c16", []byte("derived")), nil, "len32/module-derived")
 	w.submitU = sdk.MsgTypeURL(&vauthtypes.MsgSubmitProofExternalOwnedAccount{})
 
 	// ICA host: the state a permissionless channel handshake leaves behind, placed through the keepers (as driver `routes`)
@@ -251,6 +285,9 @@ func (w *world) genSig(r *Rng, acc *acctInfo, sub *itutiltypes.TestAccount) sigS
 		}
 	}
 	v := good(owner)
+	if acc.key == nil && r.Chance(65) {
+		return sigSpec{h(v), "valid"} // genuine signature of the key that is NOT the owner of this odd-length address
+	}
 	switch x := r.Intn(100); {
 	case x < 46:
 		return sigSpec{h(v), "valid"}
@@ -473,15 +510,13 @@ func (w *world) pickAcc(r *Rng, inBlock []*acctInfo, wantFresh int) *acctInfo {
 	if x < wantFresh+12 && len(inBlock) > 0 {
 		return inBlock[r.Intn(len(inBlock))]
 	}
-	if x < wantFresh+16 {
-		// a 32-byte address ending in a key's address
-		var cand []*acctInfo
-		for _, a := range w.pool {
-			if a.tag == "long32" {
-				cand = append(cand, a)
+	if x < wantFresh+20 {
+		// an address that is not 20 bytes long
+		for {
+			if a := w.oddlen[r.Intn(len(w.oddlen))]; a.sfx != nil || r.Chance(30) {
+				return a
 			}
 		}
-		return cand[r.Intn(len(cand))]
 	}
 	if x < wantFresh+30 {
 		// an already proven one
@@ -500,8 +535,11 @@ func (w *world) pickAcc(r *Rng, inBlock []*acctInfo, wantFresh int) *acctInfo {
 
 func (w *world) genSubmit(r *Rng, signers *[]*itutiltypes.TestAccount, inBlock []*acctInfo) *op {
 	o := &op{Kind: opSubmit}
+	acc := w.pickAcc(r, inBlock, 50)
+	// an address of odd length with the key a sloppy length rule would accept: mostly the plain, well-funded, top-level case
+	plain := len(acc.addr) != 20 && acc.sfx != nil && r.Chance(75)
 	switch x := r.Intn(100); {
-	case x < 68:
+	case x < 68 || plain:
 		o.Nest = 0
 	case x < 82:
 		o.Nest = 1
@@ -537,7 +575,7 @@ func (w *world) genSubmit(r *Rng, signers *[]*itutiltypes.TestAccount, inBlock [
 		}
 		o.Sub = w.newFunded(amt)
 		require.NoError(w.t, w.c.App.AuthzKeeper.SaveGrant(w.c.Ctx(), o.Payer.GetCosmosAddress(), o.Sub.GetCosmosAddress(), authz.NewGenericAuthorization(w.submitU), nil))
-	} else if r.Chance(55) {
+	} else if !plain && r.Chance(55) {
 		var amt *big.Int
 		switch x := r.Intn(8); x {
 		case 0:
@@ -565,10 +603,9 @@ func (w *world) genSubmit(r *Rng, signers *[]*itutiltypes.TestAccount, inBlock [
 		o.BalClass = "rich"
 	}
 	// account
-	acc := w.pickAcc(r, inBlock, 50)
 	o.Acc, o.AccStr, o.AccOK, o.AccClass = acc, acc.addr.String(), len(acc.addr) == 20, "bech32"
 	if len(acc.addr) != 20 {
-		o.AccClass = "long32"
+		o.AccClass = acc.cls
 	} else {
 		switch x := r.Intn(100); {
 		case x < 5:
@@ -585,7 +622,7 @@ func (w *world) genSubmit(r *Rng, signers *[]*itutiltypes.TestAccount, inBlock [
 			o.AccStr, o.AccOK, o.AccClass = o.AccStr[:len(o.AccStr)-1]+"!", false, "not-bech32"
 		}
 	}
-	if o.AccOK || o.AccClass == "long32" {
+	if o.AccOK || len(acc.addr) != 20 {
 		o.AccID = acc.id
 	} else {
 		o.Acc = nil
@@ -765,7 +802,7 @@ func TestDriverVauth(t *testing.T) {
 			acc := w.pickAcc(r, inBlock, 55)
 			icaSub = &op{Kind: opIcaSubmit, Acc: acc, AccStr: acc.addr.String(), AccOK: len(acc.addr) == 20, AccID: acc.id, AccClass: "bech32", Fee: big.NewInt(0), BalClass: "ica"}
 			if len(acc.addr) != 20 {
-				icaSub.AccClass = "long32"
+				icaSub.AccClass = acc.cls
 			}
 			icaSub.Sig = w.genSig(r, acc, w.sink)
 			inBlock = append(inBlock, acc)
@@ -1113,7 +1150,11 @@ func TestDriverVauth(t *testing.T) {
 				continue
 			}
 			if len(a.addr) != 20 {
-				hit("proof/stored-for-non-20-byte-address", fmt.Sprintf("a proof was stored for the %d-byte address %s, which no key controls (the signature belongs to the key of its last 20 bytes)", len(a.addr), h))
+				signer := "nobody's"
+				if ownerSigned(a.sfx, p.Signature) {
+					signer = "the key of the OTHER address " + hex.EncodeToString(a.sfx.GetCosmosAddress())
+				}
+				hit("proof/stored-for-non-20-byte-address", fmt.Sprintf("a proof was stored for the %d-byte address %s (%s), which no key controls; the stored signature is %s", len(a.addr), h, a.cls, signer))
 				continue
 			}
 			by := false
